@@ -330,16 +330,25 @@ def check_for_circular_dependencies(targets, dependencies):
     nodes = targets.values()
     state = dict((n, fresh) for n in nodes)
 
-    def visitor(node):
-        state[node] = started
-        for dep in dependencies[node]:
-            if state[dep] == started:
-                raise CircularDependencyError(
-                    "Target {} depends on itself.".format(node)
-                )
-            elif state[dep] == fresh:
-                visitor(dep)
-        state[node] = done
+    def visitor(root):
+        # Iterative depth-first search, so that deep dependency chains do not
+        # hit the interpreter's recursion limit.
+        state[root] = started
+        stack = [(root, iter(dependencies[root]))]
+        while stack:
+            node, deps = stack[-1]
+            for dep in deps:
+                if state[dep] == started:
+                    raise CircularDependencyError(
+                        "Target {} depends on itself.".format(node)
+                    )
+                elif state[dep] == fresh:
+                    state[dep] = started
+                    stack.append((dep, iter(dependencies[dep])))
+                    break
+            else:
+                state[node] = done
+                stack.pop()
 
     for node in nodes:
         if state[node] == fresh:
@@ -464,19 +473,19 @@ class Graph:
 
     def dfs(self, root):
         """Return the depth-first traversal path through a graph from `root`."""
-        visited = set()
+        visited = {root}
         path = []
-
-        def dfs_inner(node):
-            if node in visited:
-                return
-
-            visited.add(node)
-            for dep in self.dependencies[node]:
-                dfs_inner(dep)
-            path.append(node)
-
-        dfs_inner(root)
+        stack = [(root, iter(self.dependencies[root]))]
+        while stack:
+            node, deps = stack[-1]
+            for dep in deps:
+                if dep not in visited:
+                    visited.add(dep)
+                    stack.append((dep, iter(self.dependencies[dep])))
+                    break
+            else:
+                path.append(node)
+                stack.pop()
         return path
 
     def __iter__(self):
